@@ -37,7 +37,6 @@ TRUSTED = [
 ]
 
 FINDING_RV_EDGE = "C09-erasech-rv-right-edge"
-FINDING_PRINTN0 = "C09-printn-zero-length-strlen"
 VERIF = os.path.dirname(os.path.dirname(os.path.dirname(os.path.abspath(__file__))))
 
 SIZES = [(1, 1), (1, 4), (2, 2), (3, 5), (5, 10), (4, 7), (6, 3), (5, 1), (24, 80), (3, 140)]
@@ -64,8 +63,8 @@ class Cur:
             self.row += int(f[1]); self.col += int(f[2]); self.pend = False if (int(f[1]) or int(f[2])) else self.pend
         elif k in ("P", "p", "n"):
             n = 0 if f[1] == "-" else len(f[1]) // 2
-            if k == "n" and int(f[2]) != 0:
-                n = int(f[2])          # (length 0 writes the whole string: recorded deviation)
+            if k == "n":
+                n = int(f[2])          # printn writes the first len bytes; nothing for length 0
             if n:
                 if self.col + n >= self.cols: self.col, self.pend = self.cols - 1, True
                 else: self.col += n
@@ -172,7 +171,7 @@ def _gen(tier, seed, info):
                         fill = "G:1:0 P:%s " % hexs("".join(chr(33 + i % 90) for i in range(cols)))
                         yield "%d %d 1 0 0 %sc:%s G:1:%d E:%d:%d G:0:0" % (lines, cols, fill, rvpen, c, n, me)
     # 3b. the public print calls and the output buffer: print (strlen), printn with every prefix length
-    #     (length 0 of a non-empty string is the recorded deviation), buffer sizes around the write sizes
+    #     (length 0 must write nothing), buffer sizes around the write sizes
     for size in (0, 1, 2, 7, 64, 4096):
         for text in ("", "A", "Hello", "0123456789"):
             for ln in sorted({0, 1, len(text) // 2, len(text)}):
@@ -231,8 +230,6 @@ def _gen(tier, seed, info):
                     op = "p:" + hexs(text)
                 else:
                     ln = rnd.choice([len(text), len(text), rnd.randint(0, len(text))])
-                    if ln == 0 and text and rnd.random() < 0.8:
-                        ln = len(text)           # keep the recorded deviation rare
                     op = "n:%s:%d" % (hexs(text), ln)
             elif kind == "O":
                 op = "O:%d" % rnd.choice([0, 1, 3, 8, 64, 1000])
@@ -305,24 +302,18 @@ def _excl_oracle(case, obs):
     return _co.stdout.readline().decode().strip()
 
 
-def triggers_printn0(case):
-    """recorded deviation: printn(str, 0) of a non-empty string writes the whole string"""
-    return any(op.startswith("n:") and op.endswith(":0") and op.split(":")[1] != "-" for op in case.split()[5:])
-
-
 def in_trigger_class(case):
-    return triggers_rv_edge(case) or triggers_printn0(case)
+    return triggers_rv_edge(case)
 
 
 def explain(case, obs, findings):
-    """attributed to a finding iff the case contains a request of its trigger class AND the extracted
-    oracle finds nothing wrong when requests of the trigger classes are left out of the judgement"""
-    p0, rv = triggers_printn0(case), triggers_rv_edge(case)
-    if not (p0 or rv):
+    """attributed to the finding iff the case contains a request of its trigger class AND the extracted
+    oracle finds nothing wrong when requests of the trigger class are left out of the judgement"""
+    if not triggers_rv_edge(case):
         return None
     try:
         if _excl_oracle(case, obs).startswith("OK"):
-            return FINDING_PRINTN0 if p0 else FINDING_RV_EDGE
+            return FINDING_RV_EDGE
     except Exception:
         return None
     return None
